@@ -469,6 +469,12 @@ var structuralOrWhitespaceNegated = [256]byte{
 	1, 1, 1, 1, 1, 1, 1, 1, 1, 1, 1, 1, 1, 1, 1, 1, 1, 1, 1, 1, 1, 1,
 	1, 1, 1, 1, 1, 1, 1, 1, 1, 1, 1, 1, 1, 1, 1, 1, 1, 1, 1, 1}
 
+func init() {
+	// A NUL byte is neither structural nor white space in JSON text,
+	// so it cannot terminate an atom.
+	structuralOrWhitespaceNegated[0] = 1
+}
+
 // return non-zero if not a structural or whitespace char
 // zero otherwise
 func isNotStructuralOrWhitespace(c byte) byte {
